@@ -6,4 +6,5 @@ Bound == ntok <= MaxTok
 View  == state                      \* obs is an observation, not state
 CTexts == {<<103, 111>>}            \* "go"
 CHRs   == {<<0, 0>>, <<1, 0>>, <<1, 1>>, <<3, 1>>, <<6, 0>>, <<-1, 0>>}
+CHRsQ  == {<<1, 0>>, <<3, 1>>, <<-1, 0>>}
 =============================================================================
